@@ -1,4 +1,5 @@
 import ScVerif.C11.LocksetLemmas
+import ScVerif.C11.Trace
 import ScVerif.Generated.C11Facts
 /-!
 C11 — property theorems (claim level: **partial**, see props/C11.json).
@@ -17,12 +18,13 @@ possibly live on different goroutines; a row is also paired with itself) is orde
 with an exclusive side, by construction-before-publication, by a single-goroutine role, or by a
 channel-close edge. -/
 theorem C11_lock_discipline : raceFree accesses :=
-  (raceFreeB_iff accesses).mp (by decide)
+  (raceFreeW_iff accesses).mp (by decide +kernel)
 
+set_option maxRecDepth 100000 in
 /-- The table is not trivially race free: it contains conflicting pairs of live rows. -/
 example : (accesses.any fun a => accesses.any fun b =>
     conflictB a b && a.phase == Phase.live && b.phase == Phase.live && a.fn != b.fn) = true := by
-  decide
+  decide +kernel
 
 /-- The executable check used by the driver, the harness and `decide` is exactly the specification. -/
 theorem C11_check_sound_complete (tbl : List Access) : raceFreeB tbl = true ↔ raceFree tbl :=
@@ -56,6 +58,31 @@ theorem C11_shared_write_refutes {t : List Access} {a : Access} (ha : a ∈ t) (
 /-- the hypothesis of `C11_shared_write_refutes` is satisfiable: the pre-fix `genID` row -/
 example : ¬ raceFree [Access.mk 0 .W 0 [(0, .shared)] .live 0 [] []] :=
   C11_shared_write_refutes (List.mem_singleton.mpr rfl) rfl rfl rfl (by simp) (by simp)
+
+/-- Why a common mutex with an exclusive side orders: in EVERY execution of the mutex semantics
+(`Trace.lean`: one exclusive holder or any number of shared holders), if the goroutine executing `a`
+holds the locks the table lists for `a`, and a different goroutine later executes `b` holding the locks
+listed for `b`, and the table says `commonLock a b`, then the first goroutine released a common lock
+in between (the Go memory model turns that release/acquire pair into happens-before). -/
+theorem C11_exclusive_lock_orders {a b : Access} (hcl : commonLock a b)
+    {pre mid : List Ev} {st₁ st₂ : LState} {t₁ t₂ : Nat}
+    (hpre : run [] pre = some st₁) (hmid : run st₁ mid = some st₂)
+    (ha : ∀ p ∈ a.held, (t₁, p.1, p.2) ∈ st₁) (hb : ∀ p ∈ b.held, (t₂, p.1, p.2) ∈ st₂)
+    (hne : t₁ ≠ t₂) : ∃ l, Ev.rel t₁ l ∈ mid :=
+  commonLock_release_between hcl hpre hmid ha hb hne
+
+/-- the hypotheses of `C11_exclusive_lock_orders` are satisfiable: writer then reader of one RWMutex -/
+example : ∃ st₁ st₂, run [] [Ev.acq 1 0 .excl] = some st₁ ∧
+    run st₁ [Ev.acc 1 0, Ev.rel 1 0, Ev.acq 2 0 .shared] = some st₂ ∧
+    (1, 0, LMode.excl) ∈ st₁ ∧ (2, 0, LMode.shared) ∈ st₂ :=
+  ⟨[(1, 0, .excl)], [(2, 0, .shared)], by decide, by decide, by decide, by decide⟩
+
+/-- …and two `RLock` holders are NOT ordered: the semantics has an execution in which both hold the
+lock at once, which is why `commonLock` demands an exclusive side. -/
+theorem C11_shared_lock_does_not_order :
+    ∃ st, run [] [Ev.acq 1 0 .shared, Ev.acq 2 0 .shared, Ev.acc 1 0, Ev.acc 2 0] = some st
+      ∧ (1, 0, LMode.shared) ∈ st ∧ (2, 0, LMode.shared) ∈ st :=
+  shared_overlap
 
 theorem C11_ordered_symm {a b : Access} (h : ordered a b) : ordered b a := ordered_symm h
 
